@@ -52,9 +52,24 @@ pub fn exec_op2(sim: &Sim, op: &Op, _in_cb: bool) {
         Op::InsertExecutor { id, script } => crate::exec::insert_executor(sim, *id, script),
         Op::Schedule { exec, task, pendings, script } => crate::exec::schedule(sim, *exec, *task, *pendings, script),
         Op::Wake(t) => crate::exec::wake(sim, *t),
-        Op::ManyPings { base, n } => {
+        Op::RemoveRange { base, n } => {
             for i in 0..*n {
-                crate::ops::exec_op(sim, &Op::InsertPing { id: base + i, script: vec![] }, _in_cb);
+                crate::ops::exec_op(sim, &Op::Remove(base + i), _in_cb);
+                if sim.is_dead() {
+                    return;
+                }
+            }
+            sim.probe("remove_range");
+        }
+        Op::ManyIdles { base, n } => {
+            for i in 0..*n {
+                crate::ops::exec_op(sim, &Op::InsertIdle { id: base + i, ops: vec![] }, _in_cb);
+            }
+            sim.probe("many_idles");
+        }
+        Op::ManyPings { base, n, first_script } => {
+            for i in 0..*n {
+                crate::ops::exec_op(sim, &Op::InsertPing { id: base + i, script: if i == 0 { first_script.clone() } else { vec![] } }, _in_cb);
                 crate::ops::exec_op(sim, &Op::Ping(base + i), _in_cb);
             }
             sim.probe("many_pings");
@@ -62,7 +77,7 @@ pub fn exec_op2(sim: &Sim, op: &Op, _in_cb: bool) {
         Op::ScheduleTimeout { exec, task, dl } => crate::exec::schedule_timeout(sim, *exec, *task, *dl),
         Op::SlotChurn(n) => slot_churn(sim, *n),
         Op::InsertComposite { id, children, script } => crate::composite::insert_composite(sim, *id, children, script),
-        Op::PingChild(..) | Op::DropChildPing(..) | Op::PeerWriteChild(..) => crate::composite::child_op(sim, op),
+        Op::PingChild(..) | Op::DropChildPing(..) | Op::PeerWriteChild(..) | Op::ArmChildTimer(..) => crate::composite::child_op(sim, op),
         Op::SigNew { id, sigs, script } => crate::sig::sig_new(sim, *id, sigs, script),
         Op::SigAdd(id, s) => crate::sig::sig_change(sim, *id, 0, s),
         Op::SigRemove(id, s) => crate::sig::sig_change(sim, *id, 1, s),
